@@ -16,7 +16,7 @@ func (k msgServer) Convert(ctx context.Context, msg *types.MsgConvert) (*types.M
 		return nil, errorsmod.Wrap(err, "invalid sender address")
 	}
 
-	if !msg.Amount.IsPositive() {
+	if msg.Amount.IsNil() || !msg.Amount.IsPositive() {
 		return nil, errorsmod.Wrap(sdkerrors.ErrInvalidRequest, "amount must be positive")
 	}
 
